@@ -38,13 +38,16 @@ fn arb_params() -> impl Strategy<Value = SimParams> {
         // small lane output buffers: lane events are still queued in the lane when the snapshot is taken
         prop_oneof![4 => 8usize..40, 1 => arb_cap()],
         prop_oneof![Just(2usize), Just(3), Just(8), Just(64)],
+        // a short prune delay (with clock advances of a fraction of it) exercises the detachment of idle remotes
+        prop_oneof![3 => Just(30_000u64), 2 => 100u64..2000],
     )
-        .prop_map(|(seed, attachment_queue, lane_in_buf, lane_out_buf, budget)| SimParams {
+        .prop_map(|(seed, attachment_queue, lane_in_buf, lane_out_buf, budget, prune_remote_delay_ms)| SimParams {
             seed,
             attachment_queue,
             lane_in_buf: lane_in_buf.max(8),
             lane_out_buf: lane_out_buf.max(8),
             budget,
+            prune_remote_delay_ms,
             ..SimParams::default()
         })
 }
@@ -61,6 +64,10 @@ enum GOp {
     /// mutations are executed while the lane's writer is busy, then (a few polls later) another remote syncs: the sync
     /// request is written after the mutations happened but may reach the lane while their events are still queued
     LateSync { r: u16, r2: u16, l: u8, cmds: Vec<MapCmd>, polls: usize },
+    Unlink { r: u16, l: u8 },
+    /// a stalled remote syncs, the system runs until idle (everything that can happen without the remote reading has
+    /// happened: the tail of the sync waits behind its busy writer), it unlinks, and syncs again
+    Resync { r: u16, l: u8, cmds: Vec<MapCmd>, polls: usize },
 }
 
 fn arb_cmd(nkeys: usize) -> impl Strategy<Value = MapCmd> {
@@ -73,8 +80,14 @@ fn arb_cmd(nkeys: usize) -> impl Strategy<Value = MapCmd> {
     ]
 }
 
-fn arb_gop(nprogs: usize, nkeys: usize) -> impl Strategy<Value = GOp> {
+fn arb_gop(nprogs: usize, nkeys: usize, prune_ms: u64) -> impl Strategy<Value = GOp> {
+    // clock advances of 1/8 .. 10/8 of the prune delay (small steps when the delay is the default 30 s)
+    let unit = if prune_ms >= 30_000 { 20 } else { (prune_ms / 8).max(1) };
     prop_oneof![
+        3 => (1u64..=10).prop_map(move |f| GOp::Plain(Op::Advance { ms: unit * f })),
+        1 => (any::<u16>(), any::<u8>()).prop_map(|(r, l)| GOp::Unlink { r, l }),
+        3 => (any::<u16>(), any::<u8>(), proptest::collection::vec(arb_cmd(nkeys), 0..4), prop_oneof![1usize..4, Just(1000usize)])
+            .prop_map(|(r, l, cmds, polls)| GOp::Resync { r, l, cmds, polls }),
         2 => arb_attach().prop_map(GOp::Plain),
         2 => (any::<u16>(), any::<u8>()).prop_map(|(r, l)| GOp::Link { r, l }),
         6 => (any::<u16>(), any::<u8>()).prop_map(|(r, l)| GOp::Sync { r, l }),
@@ -159,6 +172,29 @@ fn finish(maps: bool, active: &[usize], programs: &mut [Vec<Act>], gops: Vec<GOp
                 all.push(Op::Pump { r, n: usize::MAX });
             }
             GOp::Prog { r, p } => all.push(Op::Cmd { r, lane: 6, body: p.to_string() }),
+            GOp::Unlink { r, l } => {
+                let lane = lane_of(l);
+                opened.remove(&(pick_index(r, nrem), lane));
+                all.push(Op::Unlink { r, lane: lane as u8 });
+            }
+            GOp::Resync { r, l, cmds, polls } => {
+                let lane = lane_of(l);
+                for cmd in cmds {
+                    let body = render(lane, cmd, &mut next);
+                    all.push(Op::Cmd { r, lane: lane as u8, body });
+                }
+                opened.insert((pick_index(r, nrem), lane));
+                all.push(Op::Sync { r, lane: lane as u8 });
+                all.push(Op::Pump { r, n: usize::MAX });
+                all.push(Op::Poll { k: 1000 });
+                all.push(Op::Poll { k: 1000 });
+                all.push(Op::Unlink { r, lane: lane as u8 });
+                all.push(Op::Pump { r, n: usize::MAX });
+                all.push(Op::Poll { k: polls });
+                all.push(Op::Sync { r, lane: lane as u8 });
+                all.push(Op::Pump { r, n: usize::MAX });
+                all.push(Op::Poll { k: 1000 });
+            }
             GOp::LateSync { r, r2, l, cmds, polls } => {
                 let lane = lane_of(l);
                 for cmd in cmds {
@@ -225,12 +261,13 @@ fn arb_case(maps: bool, max_ops: usize) -> impl Strategy<Value = Case> {
         })
         .prop_flat_map(move |(params, cascade, nkeys, active, programs)| {
             let n = programs.len();
+            let prune_ms = params.prune_remote_delay_ms;
             (
                 Just(params),
                 Just(cascade),
                 Just(active),
                 Just(programs),
-                proptest::collection::vec(arb_gop(n, nkeys), 1..max_ops),
+                proptest::collection::vec(arb_gop(n, nkeys, prune_ms), 1..max_ops),
             )
         })
         .prop_map(move |(params, cascade, active, mut programs, gops)| {
@@ -259,28 +296,34 @@ struct Stats {
     windows: Vec<(u64, u64, usize)>,
 }
 
-/// `linked` exactly once and first, one `synced` per request.
-fn check_order(v: &mut Verdict, ri: usize, lane: &str, rem: &RemoteObs, quiescent: bool) {
+/// `linked` first in every session, exactly once if the remote never unlinks, every sync request answered; a remote is not
+/// detached before its own prune delay.
+fn check_order(v: &mut Verdict, ri: usize, lane: &str, rem: &RemoteObs, quiescent: bool, prune_delay_ms: u64) {
     let frames: Vec<&vsim::Frame> = rem.frames.iter().filter(|f| f.lane == lane).collect();
-    let written = |want: Req| {
-        rem.sent
-            .iter()
-            .filter(|(l, r, _, w)| l == lane && *r == want && w.is_some())
-            .count()
-    };
+    let reqs: Vec<&(String, Req, u64, Option<u64>)> = rem.sent.iter().filter(|s| s.0 == lane).collect();
+    let written = |want: Req| reqs.iter().filter(|s| s.1 == want && s.3.is_some()).count();
     let (n_link, n_sync) = (written(Req::Link), written(Req::Sync));
-    if let Some(f) = frames.first() {
-        if f.kind != FrameKind::Linked {
-            v.fail(
-                "order:first-frame-not-linked",
-                format!("remote {} lane {}: the first frame is {} (seq {}), not linked", ri, lane, describe_frame(f), f.seq),
-            );
+    let unlink_requests = reqs.iter().filter(|s| s.1 == Req::Unlink).count();
+    let mut in_session = false;
+    for f in &frames {
+        match &f.kind {
+            FrameKind::Linked => in_session = true,
+            FrameKind::Unlinked(_) => in_session = false,
+            _ => {
+                if !in_session {
+                    v.fail(
+                        "order:first-frame-not-linked",
+                        format!("remote {} lane {}: {} (seq {}) received while not linked: a session must start with linked", ri, lane, describe_frame(f), f.seq),
+                    );
+                    break;
+                }
+            }
         }
     }
     let n_linked = frames.iter().filter(|f| f.kind == FrameKind::Linked).count();
     let n_unlinked = frames.iter().filter(|f| matches!(f.kind, FrameKind::Unlinked(_))).count();
     let n_synced = frames.iter().filter(|f| f.kind == FrameKind::Synced).count();
-    if n_unlinked == 0 && n_linked > 1 {
+    if n_unlinked == 0 && unlink_requests == 0 && n_linked > 1 {
         v.fail(
             "order:linked-more-than-once",
             format!("remote {} lane {}: {} linked frames for {} link request(s) (sent before any sync) and {} sync request(s)", ri, lane, n_linked, n_link, n_sync),
@@ -292,18 +335,31 @@ fn check_order(v: &mut Verdict, ri: usize, lane: &str, rem: &RemoteObs, quiescen
             format!("remote {} lane {}: {} synced frames for {} sync requests", ri, lane, n_synced, n_sync),
         );
     }
-    if quiescent && rem.connected && !rem.eof && rem.decode_error.is_none() && n_unlinked == 0 {
+    // A remote without links may be detached, but only by a check that was scheduled `prune_remote_delay` after it attached
+    // (or after it lost its last link, which is later still): never before attach time + delay. A remote detached earlier
+    // whose link / sync requests then go unanswered did not get what the property promises.
+    let last_sync_q = reqs.iter().filter(|s| s.1 == Req::Sync).map(|s| s.2).max();
+    let last_synced = frames.iter().filter(|f| f.kind == FrameKind::Synced).map(|f| f.seq).max();
+    let sync_unanswered = last_sync_q.map(|q| last_synced.map(|t1| t1 < q).unwrap_or(true)).unwrap_or(false);
+    if let Some((t_d, reason)) = &rem.detached {
+        if reason == "RemoteTimedOut" && *t_d < rem.attach_ms + prune_delay_ms && sync_unanswered && rem.connected {
+            v.fail(
+                "order:remote-detached-before-its-prune-delay",
+                format!(
+                    "remote {} lane {}: attached at {} ms, detached as idle ({}) at {} ms although prune_remote_delay is {} ms; its sync request queued at seq {:?} was never answered",
+                    ri, lane, rem.attach_ms, reason, t_d, prune_delay_ms, last_sync_q
+                ),
+            );
+        }
+    }
+    if quiescent && rem.connected && !rem.eof && rem.detached.is_none() && rem.decode_error.is_none() {
         // Several outstanding sync requests of one remote may be answered by a single `synced` (the uplink keeps one
-        // `send_synced` flag), so the rule is: every request is followed by a `synced`.
-        let last_req = rem
-            .sent
-            .iter()
-            .filter(|(l, r, _, _)| l == lane && *r == Req::Sync)
-            .filter_map(|s| s.3)
-            .max();
-        let last_synced = frames.iter().filter(|f| f.kind == FrameKind::Synced).map(|f| f.seq).max();
-        if let Some(t0) = last_req {
-            if last_synced.map(|t1| t1 < t0).unwrap_or(true) {
+        // `send_synced` flag), so the rule is: every request is followed by a `synced` - unless the remote asked to unlink
+        // after it (the unlink discards what is pending for the lane).
+        let last_req = reqs.iter().filter(|s| s.1 == Req::Sync).filter_map(|s| s.3.map(|w| (s.2, w))).max();
+        if let Some((q, t0)) = last_req {
+            let abandoned = reqs.iter().any(|s| s.1 == Req::Unlink && s.2 > q);
+            if !abandoned && last_synced.map(|t1| t1 < t0).unwrap_or(true) {
                 v.fail(
                     "order:sync-not-answered",
                     format!(
@@ -313,7 +369,7 @@ fn check_order(v: &mut Verdict, ri: usize, lane: &str, rem: &RemoteObs, quiescen
                 );
             }
         }
-        if n_link + n_sync > 0 && n_linked == 0 {
+        if unlink_requests == 0 && n_link + n_sync > 0 && n_linked == 0 {
             v.fail(
                 "order:link-not-answered",
                 format!("remote {} lane {}: agent quiescent and everything delivered but no linked frame for {} link / {} sync request(s)", ri, lane, n_link, n_sync),
@@ -327,18 +383,13 @@ fn parse_i64(body: &[u8]) -> Option<i64> {
 }
 
 /// C01 rules + the snapshot rule for a value lane.
-fn check_value_lane(v: &mut Verdict, st: &mut Stats, ri: usize, li: usize, rem: &RemoteObs, hist: &[(u64, i64)], quiescent: bool) {
+fn check_value_lane(v: &mut Verdict, st: &mut Stats, ri: usize, li: usize, rem: &RemoteObs, hist: &[(u64, i64)], quiescent: bool, marks: &[u64]) {
     let lane = ALL[li];
     let mut index_of: HashMap<i64, Vec<usize>> = HashMap::new();
     for (i, (_, val)) in hist.iter().enumerate() {
         index_of.entry(*val).or_default().push(i);
     }
-    let syncs: Vec<Option<u64>> = rem
-        .sent
-        .iter()
-        .filter(|(l, r, _, _)| l == lane && *r == Req::Sync)
-        .map(|s| s.3)
-        .collect();
+    let pairs = pair_synced_frames(rem, lane, marks);
     let mut linked = false;
     let mut linked_seq = 0u64;
     let mut last_idx: Option<usize> = None;
@@ -389,15 +440,24 @@ fn check_value_lane(v: &mut Verdict, st: &mut Stats, ri: usize, li: usize, rem: 
                 events_in_session += 1;
             }
             FrameKind::Synced => {
-                let req = syncs.get(j).copied().flatten();
+                let pair = pairs.get(j).cloned().unwrap_or(SyncedPair::Skip);
                 j += 1;
                 let t1 = f.seq;
-                let Some(t0) = req.filter(|t0| *t0 < t1) else {
-                    v.fail(
-                        "synced-without-request",
-                        format!("remote {} lane {}: synced frame number {} at seq {} has no sync request written before it", ri, lane, j, t1),
-                    );
-                    continue;
+                let (idx, t0) = match pair {
+                    SyncedPair::Skip => continue,
+                    SyncedPair::Req { written: Some(t0), idx, disturbed, .. } if t0 < t1 => {
+                        if disturbed {
+                            continue;
+                        }
+                        (idx, t0)
+                    }
+                    _ => {
+                        v.fail(
+                            "synced-without-request",
+                            format!("remote {} lane {}: synced frame number {} at seq {} cannot be the answer to any sync request of the remote", ri, lane, j, t1),
+                        );
+                        continue;
+                    }
                 };
                 if !linked {
                     continue;
@@ -411,7 +471,7 @@ fn check_value_lane(v: &mut Verdict, st: &mut Stats, ri: usize, li: usize, rem: 
                 if events_in_session > 0 {
                     st.events_before_synced = true;
                 }
-                let without = sync_without_link(rem, lane, j - 1);
+                let without = sync_without_link(rem, lane, idx);
                 if without {
                     st.implicit += 1;
                 } else {
@@ -477,7 +537,7 @@ fn check(maps: bool, case: &Case) -> Verdict {
             let final_map = fold(&events);
             mutations += events.len();
             for (ri, rem) in obs.remotes.iter().enumerate() {
-                check_order(&mut v, ri, MAP_LANES[li], rem, quiescent);
+                check_order(&mut v, ri, MAP_LANES[li], rem, quiescent, case.params.prune_remote_delay_ms);
                 let s = check_map_sync(&mut v, ri, li, rem, &events, &obs.quiescent_marks);
                 st.syncs_completed += s.syncs_completed;
                 st.syncs_racing += s.syncs_racing;
@@ -508,8 +568,8 @@ fn check(maps: bool, case: &Case) -> Verdict {
             }
             mutations += hist.len() - 1;
             for (ri, rem) in obs.remotes.iter().enumerate() {
-                check_order(&mut v, ri, ALL[li], rem, quiescent);
-                check_value_lane(&mut v, &mut st, ri, li, rem, &hist, quiescent);
+                check_order(&mut v, ri, ALL[li], rem, quiescent, case.params.prune_remote_delay_ms);
+                check_value_lane(&mut v, &mut st, ri, li, rem, &hist, quiescent, &obs.quiescent_marks);
             }
         }
     }
@@ -521,6 +581,21 @@ fn check(maps: bool, case: &Case) -> Verdict {
     if st.syncs_racing > 0 {
         v.nontrivial();
     }
+    let lanes_of_kind: &[&str] = if maps { &MAP_LANES } else { &ALL[..3] };
+    let mut resync_checked = false;
+    for rem in &obs.remotes {
+        for lane in lanes_of_kind {
+            let first_unlink = rem.sent.iter().filter(|s| s.0 == *lane && s.1 == Req::Unlink).map(|s| s.2).min();
+            if let Some(u) = first_unlink {
+                resync_checked |= pair_synced_frames(rem, lane, &obs.quiescent_marks)
+                    .iter()
+                    .any(|p| matches!(p, SyncedPair::Req { queued, disturbed: false, written: Some(_), .. } if *queued > u));
+            }
+        }
+    }
+    v.class_if(resync_checked, "sync-after-unlink-checked");
+    v.class_if(obs.remotes.iter().any(|r| matches!(&r.detached, Some((_, why)) if why == "RemoteTimedOut")), "idle-remote-pruned");
+    v.class_if(case.params.prune_remote_delay_ms < 30_000, "short-prune-delay");
     v.class_if(st.syncs_completed > 0, "sync-completed");
     v.class_if(st.syncs_racing > 0, "sync-raced-with-mutation");
     v.class_if(st.implicit > 0, "sync-without-link");
